@@ -1,4 +1,5 @@
 import RV.Proofs.TreeFileFree
+import RV.Gen.TreeLint
 /-!
 # C16 — A persistent z.Tree reopens to the same contents
 
@@ -146,6 +147,15 @@ theorem c16_newNode_keeps_room (cfg : Cfg) (a : Alloc) (h : AllocFits cfg a) (hb
     (hb2 : (a.nextPage + 1) * cfg.pageSize < 2 ^ 61) :
     AllocFits cfg (newNode cfg a).2 ∧ (newNode cfg a).2.nextPage * cfg.pageSize ≤ (newNode cfg a).2.curSz - 8 :=
   ⟨newNode_fits cfg a h hb1 hb2, (newNode_fits cfg a h hb1 hb2).fileOk_fits⟩
+
+/-! ## Static obligation on z/btree.go: no read through a stale node slice either
+
+For an in-memory tree a read through a stale `node` sees the old (still readable) buffer; for a
+persistent tree the old mapping is gone after `mremap` and the read faults (finding F11: `right`
+kept across `newNode`, `root.bits()` read after `split`, both in `Tree.Set`).  The lint
+(`go2lean/treelint.go`, see `c10_no_stale_node_writes`) must not find any. -/
+theorem c16_no_stale_node_reads : Gen.TreeLint.staleNodeReads = [] ∧ Gen.TreeLint.staleNodeWrites = [] :=
+  ⟨rfl, rfl⟩
 
 /-! ## non-vacuity: a concrete tree with recycled pages, evaluated by the kernel -/
 
